@@ -8,8 +8,13 @@ import (
 	"testing"
 	"time"
 
+	"encoding/json"
+
+	"github.com/ozontech/file.d/decoder"
 	"github.com/ozontech/file.d/fd"
+	"github.com/ozontech/file.d/metric"
 	"github.com/ozontech/file.d/pipeline"
+	"github.com/ozontech/file.d/pipeline/metadata"
 	_ "github.com/ozontech/file.d/plugin/action/discard"
 	"github.com/ozontech/file.d/plugin/input/kafka"
 	"github.com/ozontech/file.d/zzverif/vexplore"
@@ -30,6 +35,7 @@ type rec struct {
 
 type scen struct {
 	name    string
+	dup     bool // the configured topics list names the first topic twice: [t0, t0, t1, ...]
 	topics  int
 	recs    []rec // in consume order per partition
 	count   int
@@ -47,12 +53,13 @@ type recState struct {
 }
 
 type obs struct {
-	sc     scen
-	topics []string
-	recs   []*recState
-	fs     []vexplore.Finding
-	done   int
-	marks  string
+	sc         scen
+	topics     []string
+	configured []string
+	recs       []*recState
+	fs         []vexplore.Finding
+	done       int
+	marks      string
 }
 
 var (
@@ -77,8 +84,8 @@ func idOf(e *pipeline.Event) int {
 type input struct{ real *kafka.Plugin }
 
 func (in *input) Start(pipeline.AnyConfig, *pipeline.InputPluginParams) {}
-func (in *input) Stop()                                               {}
-func (in *input) PassEvent(e *pipeline.Event) bool                    { return in.real.PassEvent(e) }
+func (in *input) Stop()                                                 {}
+func (in *input) PassEvent(e *pipeline.Event) bool                      { return in.real.PassEvent(e) }
 func (in *input) Commit(e *pipeline.Event) {
 	id := idOf(e)
 	in.real.Commit(e)
@@ -174,15 +181,61 @@ func newClient() {
 	}
 }
 
+var templates = map[string]*kafka.Plugin{}
+
+// template runs the real Plugin.Start once per configured topics list (it ends in NewClient's Fatal: no broker) and
+// caches what Start had set up; see the export file.
+func template(topics []string) *kafka.Plugin {
+	key := strings.Join(topics, ",")
+	if t, ok := templates[key]; ok {
+		return t
+	}
+	info, err := fd.DefaultPluginRegistry.Get(pipeline.PluginKindInput, "kafka")
+	if err != nil {
+		panic(err)
+	}
+	tj, _ := json.Marshal(topics)
+	config, err := pipeline.GetConfig(info, []byte(fmt.Sprintf(`{"brokers":["127.0.0.1:1"],"topics":%s}`, tj)), map[string]int{"gomaxprocs": 1, "capacity": 8})
+	if err != nil {
+		panic(err)
+	}
+	params := &pipeline.InputPluginParams{
+		PluginDefaultParams: pipeline.PluginDefaultParams{PipelineName: "verif", PipelineSettings: &pipeline.Settings{}, MetricCtl: metric.NewCtl("verif", prometheus.NewRegistry(), 0, 0)},
+		Controller:          nopController{}, Logger: vplug.FatalLogger().Sugar(),
+	}
+	t, ok := kafka.VerifStartTemplate(config.(*kafka.Config), params)
+	if !ok {
+		panic("kafka Plugin.Start did not stop at the broker connection as expected")
+	}
+	templates[key] = t
+	return t
+}
+
+type nopController struct{}
+
+func (nopController) In(pipeline.SourceID, string, pipeline.Offsets, []byte, bool, metadata.MetaData) uint64 {
+	return 0
+}
+func (nopController) UseSpread()                            {}
+func (nopController) DisableStreams()                       {}
+func (nopController) SuggestDecoder(decoder.Type)           {}
+func (nopController) IncReadOps()                           {}
+func (nopController) IncMaxEventSizeExceeded(lvs ...string) {}
+
 func body(sc scen) {
 	runSeq++
-	if runSeq%100 == 0 {
-		newClient() // the client keeps every mark for ever and MarkedOffsets copies them all
-	}
+
 	o = &obs{sc: sc}
+	// topic names are per scenario shape (the started template is cached per configured list); the client is recreated every
+	// 100 runs and marks of earlier runs are told apart by the partition numbers' run offset... simpler: reset per run below
 	for i := 0; i < sc.topics; i++ {
-		o.topics = append(o.topics, fmt.Sprintf("r%d-t%d", runSeq, i)) // fresh names: the shared client keeps marks for ever
+		o.topics = append(o.topics, fmt.Sprintf("t%d", i))
 	}
+	o.configured = append([]string{}, o.topics...)
+	if sc.dup {
+		o.configured = append([]string{o.topics[0]}, o.topics...)
+	}
+	newClient() // marks are kept by the client for ever: a fresh one per execution
 	for i, r := range sc.recs {
 		o.recs = append(o.recs, &recState{rec: r, id: i})
 	}
@@ -194,7 +247,7 @@ func body(sc scen) {
 		Antispam: pipeline.AntispamSettings{Threshold: -1, MaintenanceInterval: time.Hour}, AvgEventSize: 128, StreamField: "stream",
 		Pool: pipeline.PoolTypeStd, Metric: &pipeline.MetricSettings{HoldDuration: time.Hour}}
 	p := pipeline.New("verif", settings, prometheus.NewRegistry(), vplug.FatalLogger())
-	real := kafka.VerifNewPlugin(o.topics, p, client, vplug.FatalLogger().Sugar())
+	real := template(o.configured).VerifInstantiate(p, client, vplug.FatalLogger().Sugar())
 	p.SetInput(&pipeline.InputPluginInfo{PluginStaticInfo: &pipeline.PluginStaticInfo{Type: "kafka"}, PluginRuntimeInfo: &pipeline.PluginRuntimeInfo{Plugin: &input{real}}})
 	p.SetOutput(&pipeline.OutputPluginInfo{PluginStaticInfo: &pipeline.PluginStaticInfo{Type: "verif-out"}, PluginRuntimeInfo: &pipeline.PluginRuntimeInfo{Plugin: &output{count: sc.count, workers: sc.workers}}})
 	info, err := fd.DefaultPluginRegistry.GetActionByType("discard")
@@ -306,6 +359,8 @@ func scenarios(thorough bool) []scen {
 	// so with a small pool later records of one partition land on different processors
 	s = append(s, scen{name: "1p-4rec-cap2-w2", topics: 1, count: 1, workers: 2, bound: 2, cap: 2, recs: []rec{{0, 0, 5, 1, false}, {0, 0, 6, 1, false}, {0, 0, 7, 1, false}, {0, 0, 8, 1, false}}})
 	s = append(s, scen{name: "1p-5rec-cap2-w1", topics: 1, count: 1, workers: 1, bound: 1, cap: 2, recs: []rec{{0, 0, 5, 1, false}, {0, 0, 6, 1, false}, {0, 0, 7, 1, false}, {0, 0, 8, 1, false}, {0, 0, 9, 1, false}}})
+	// a configured topics list that names a topic twice before another one
+	s = append(s, scen{name: "dup-topic-2t", dup: true, topics: 2, count: 1, workers: 1, bound: 1, recs: []rec{{1, 3, 5, 1, false}, {0, 3, 6, 1, false}, {1, 3, 6, 1, false}}})
 	if thorough {
 		s = append(s, scen{name: "1p-4rec-b2-w2", topics: 1, count: 2, workers: 2, bound: 2, recs: []rec{{0, 3, 10, 2, false}, {0, 3, 11, 2, false}, {0, 3, 12, 2, true}, {0, 3, 13, 2, false}}})
 		for i := range s {
